@@ -27,7 +27,10 @@ US = 1_000_000
 def usec(seconds) -> int:
     from fractions import Fraction
 
-    return int(round(Fraction(str(seconds)) * US))
+    r = int(round(Fraction(str(seconds)) * US))
+    # a positive wait shorter than the clock's resolution still lets time pass (a polling loop around a clock read
+    # would otherwise spin for ever at one virtual instant)
+    return 1 if r == 0 and seconds > 0 else r
 
 
 class Deadlock(Exception):
@@ -117,6 +120,24 @@ class Sim:
             def __exit__(self_, *a):
                 if sim.cur is not None:
                     sim.cur.decoy_depth = getattr(sim.cur, "decoy_depth", 0) - 1
+                return False
+
+        return _Ctx()
+
+    def primary(self):
+        """context manager: the current thread, although it belongs to the second connection (e.g. its reader thread
+        inside a callback), acts for the connection under test for a while: its events are recorded in the main trace"""
+        sim = self
+
+        class _Ctx:
+            def __enter__(self_):
+                me = sim.cur
+                self_.me = me
+                self_.saved = (getattr(me, "decoy", False), getattr(me, "decoy_depth", 0))
+                me.decoy, me.decoy_depth = False, 0
+
+            def __exit__(self_, *a):
+                self_.me.decoy, self_.me.decoy_depth = self_.saved
                 return False
 
         return _Ctx()
@@ -257,6 +278,20 @@ class Sim:
         me.wake_pred = None
         me.deadline = None
         return not me.timed_out
+
+    def poll_tick(self):
+        """a thread polling (zero-length waits) over and over at one virtual instant: polling takes time too, so after
+        a few rounds the clock moves on by one tick (a loop around a clock read would otherwise spin for ever)"""
+        me = self.cur
+        if me is None or self.aborting:
+            return
+        if getattr(me, "poll_at", None) == self.now:
+            me.polls += 1
+        else:
+            me.poll_at, me.polls = self.now, 1
+        if me.polls >= 3:
+            me.polls = 0
+            self.block(None, self.now + 1)
 
     def at(self, t, fn):
         self._seq += 1
@@ -423,6 +458,8 @@ class SimEvent:
         s.ev("EvWaitStart", e=self.id, deadline=dl, timeout_us=None if timeout is None else usec(timeout))
         r = s.block(lambda: self.flag, dl)
         s.ev("EvWaitEnd", e=self.id, result=bool(r))
+        if not r and dl is not None and dl <= s.now:
+            s.poll_tick()
         return bool(r)
 
 
@@ -1003,6 +1040,12 @@ class Patched:
                 sim.yield_point()
                 object.__setattr__(self_, name, value)
                 sim.ev("SetClosed")
+                return
+            if name == "_closed" and value is False and self_.__dict__.get("_closed") is True and sim.cur is not None and not sim.aborting:
+                # connect() on an object that has been closed: the flag is re-armed
+                sim.yield_point()
+                object.__setattr__(self_, name, value)
+                sim.ev("ClosedReset")
                 return
             if name == "_message_callbacks" and "_message_callbacks" in self_.__dict__ and sim.cur is not None and not sim.aborting:
                 # the container is REPLACED (copy-on-write style): a scheduling point, and the new one is instrumented too
